@@ -21,6 +21,17 @@ def main():
         a.replay = os.path.abspath(a.replay)
         os.environ["VERIF_REPLAYING"] = "1"
     try:
+        if a.replay and "if replay" not in open(mod.__file__).read() and prop != "C03":
+            # this driver has no single-case entry point: run the tier again (replay files and the evidence of
+            # the full run are left alone) and report whether the SAME case - replay files are named by a stable
+            # hash of the case - is a violation again
+            import time
+            t0 = time.time()
+            mod.main(a.tier, replay=None, selftest=False)
+            p = os.path.join(vlib.VERIF, "replays", prop, os.path.basename(a.replay))
+            again = os.path.exists(p) and os.path.getmtime(p) >= t0 - 1
+            print("replay of %s: %s" % (os.path.basename(a.replay), "violated again" if again else "holds now"), file=sys.stderr)
+            return 1 if again else 0
         return mod.main(a.tier, replay=a.replay, selftest=a.selftest)
     except vlib.ToolError as e:
         print("TOOL-ERROR %s: %s" % (prop, e), file=sys.stderr)
